@@ -25,6 +25,7 @@ RULE = ("exhaustive: labelled undirected graphs n<=5 (1099) and directed graphs 
 ASSUMPTIONS = ["start == end is not asked of the path queries", "weights are positive floats well separated from zero",
                "is_tree on a directed graph is judged as 'the underlying undirected graph is a tree and there is no directed cycle'"]
 DECIDING_TAPS = ["Graph.__init__", "from_mask"]
+REPLAY_PATHS = ['menpo/shape/test']      # suite replay (thorough tier): the repository's own tests under these monitors
 SHARDS = {"quick": 8, "thorough": 16}
 TIMEOUT = {"quick": 900, "thorough": 10800}
 
